@@ -386,7 +386,7 @@ def frame_scan(prog):
                     meth = p.split('::')[-1]
                     if meth in CELL_MUTATORS or meth not in ('get', 'new', 'into_inner'):
                         cell_calls.append((key, meth, b['span']['at']))
-                if p.endswith('::set_eid') or t['callee']['decl_path'].endswith('::set_eid'):
+                if p.endswith('::set_eid') or (t['callee'].get('decl_path') or '').endswith('::set_eid'):
                     setter_calls.append((key, t['callee']['key'], b['span']['at']))
     return cell_calls, mut_fns, raw, setter_calls
 
